@@ -26,6 +26,17 @@ def generate(rng, tier, idx):
     root = pick(rng, ["/sim/c", "/sim/c", "/sim/compose[1]", "/sim/F-22-updates[testing]-20150522.2", "/sim/with space", "/sim/st*r?",
                       "/sim/ünï", "/sim/deep/er/c", "/sim/.hidden", "/sim/compose", "/sim/x/compose", "/sim/metadata", "/sim/n#4", "/sim/what?", "/sim/a%20b"])
     ops = [{"op": "cd_mkdir", "path": root}]
+    via_link = None
+    if rng.random() < 0.1:
+        # the compose is reached through a symbolic link and '..': <top>/latest/../<name> with latest -> store/f22/cur names
+        # a SIBLING of the link's target, not <top>/<name>
+        top = "/sim/top%d" % rng.randint(0, 2)
+        root = top + "/store/f22/" + pick(rng, ["c", "F-22-20150521.0", "compose"])
+        ops = [{"op": "cd_mkdir", "path": top + "/store/f22/cur"}, {"op": "cd_symlink", "link": top + "/latest", "target": "store/f22/cur"},
+               {"op": "cd_mkdir", "path": root}]
+        if rng.random() < 0.4:
+            ops.append({"op": "cd_mkdir", "path": top + "/" + root.rsplit("/", 1)[1]})     # a decoy where a textual normalisation would look
+        via_link = top + "/latest/../" + root.rsplit("/", 1)[1]
     tag = [0]
 
     def put(base, attr, which, dmg=None):
@@ -63,10 +74,10 @@ def generate(rng, tier, idx):
         ops.append({"op": "cd_mkdir", "path": "%s/%s" % (root, d)})
     for f in subset(rng, ["STATUS", "COMPOSE_ID", "metadata.txt"], 0, 2):
         ops.append({"op": "cd_touch", "path": "%s/%s" % (root, f)})
-    given = root + ("/" if rng.random() < 0.4 else "")
+    given = (via_link or root) + ("/" if rng.random() < 0.4 else "")
     opener = {"op": "cd_open", "path": given, "repeat": rng.randint(1, 4)}
     cwd = None
-    if rng.random() < 0.15:
+    if rng.random() < 0.15 and not via_link:
         cwd = root.rsplit("/", 1)[0]
         opener["relative"] = pick(rng, ["bare", "dot"])
     ops.append(opener)
